@@ -45,6 +45,9 @@ structure St where
   ckey : Cid → Option K           -- the key a call was created for
   pub : K → R → Bool              -- some fetch for k has published r
   setv : K → V → Bool             -- some SetMap installed k ↦ v
+  nerr : K → Nat                  -- failed fetches for k
+  nokT : K → Nat                  -- successful fetches for k
+  nok : K → Nat                   -- successful fetches for k since the last SetMap
 
 def upd {α} (f : Nat → α) (i : Nat) (x : α) : Nat → α := fun j => if j = i then x else f j
 
@@ -77,7 +80,10 @@ def step (s : St) : Act → St
                calls := (if s.calls k = some c then upd s.calls k none else s.calls),
                pcs := upd s.pcs t (.done k r),
                succeeded := (match r with | .ok _ => upd s.succeeded k true | .err => s.succeeded),
-               pub := fun k' r' => if k' = k ∧ r' = r then true else s.pub k' r' }
+               pub := fun k' r' => if k' = k ∧ r' = r then true else s.pub k' r',
+               nerr := (match r with | .ok _ => s.nerr | .err => upd s.nerr k (s.nerr k + 1)),
+               nokT := (match r with | .ok _ => upd s.nokT k (s.nokT k + 1) | .err => s.nokT),
+               nok := (match r with | .ok _ => upd s.nok k (s.nok k + 1) | .err => s.nok) }
     | _ => s
   | .wake t =>
     match s.pcs t with
@@ -87,7 +93,7 @@ def step (s : St) : Act → St
       | none => s
     | _ => s
   | .setMap m =>
-    { s with cache := m, succeeded := fun _ => false,
+    { s with cache := m, succeeded := fun _ => false, nok := fun _ => 0,
              setv := fun k v => s.setv k v || decide (m k = some v) }
   | .getMap => { s with maps := s.cache :: s.maps }
 
@@ -96,8 +102,14 @@ def init (keyOf : Nat → Option K) : St :=
     pcs := fun t => match keyOf t with | some k => .start k | none => .idle,
     next := 0, nfetch := fun _ => 0, maps := [],
     succeeded := fun _ => false, lateFetch := false, ckey := fun _ => none,
-    pub := fun _ _ => false, setv := fun _ _ => false }
+    pub := fun _ _ => false, setv := fun _ _ => false,
+    nerr := fun _ => 0, nokT := fun _ => 0, nok := fun _ => 0 }
 
-def run (keyOf : Nat → Option K) (as : List Act) : St := as.foldl step (init keyOf)
+def runFrom (s : St) (as : List Act) : St := as.foldl step s
+def run (keyOf : Nat → Option K) (as : List Act) : St := runFrom (init keyOf) as
+
+def Act.isSetMap : Act → Bool
+  | .setMap _ => true
+  | _ => false
 
 end Scalibr.Cache
